@@ -17,6 +17,7 @@ import PurlModel.Lemmas.ChecksumCanon
 import PurlModel.Lemmas.TypedVsGeneric
 import PurlModel.Lemmas.RustUnicode
 import PurlModel.Lemmas.PiecesFaults
+import PurlModel.Lemmas.PiecesComplete
 namespace Purl.C05
 open Purl Purl.Generated
 
@@ -372,6 +373,75 @@ theorem fault_empty_name (w : Pieces) (sep : w.Sep) (sub ver ns : Str) (q : Qual
   unfold buildS buildWith
   simp only [stringShape, strPreviewMut, hty, Bool.not_true, Bool.false_eq_true, if_false]
   exact empty_name_refused U id _ _ rfl
+
+/-! ### (d) the accepted language, exactly -/
+
+/-- ACCEPTED ⇔ LEGAL SPELLING.  The generic parser accepts `s` with result `p` exactly when `s` is
+`pkg:` + slashes + type + `/` + [namespace `/`] name [`@` version] [`?` qualifiers] [`#` subpath] with
+the side conditions of `Pieces.Ok` (which raw separator is the designated one), every piece decodes,
+and `build()` of the decoded components gives `p`.  The direction ⇒ is what "refused" rests on: a
+string with no such decomposition — or whose decomposition fails to decode or to build — is not
+accepted. -/
+theorem accepted_iff_spelling (s : Str) (p : GPurl Str) :
+    parseS U s = .ok p ↔
+      ∃ (w : Pieces) (ns name ver sub : Str) (q : Quals), Decomposed U s w ns name ver sub q ∧
+        buildS U ⟨w.ty, { ns := ns, name := name, version := ver, quals := q, subpath := sub }⟩ = .ok p := by
+  constructor
+  · intro h
+    unfold parseS parseWith at h
+    split at h
+    · simp at h
+    rename_i ty rest parts0 hpre
+    simp only [stringShape] at h
+    split at h
+    · simp [fail] at h
+    rename_i parts hpost
+    obtain ⟨w, hty, _, _, hd⟩ := pieces_of_parse U hpre hpost
+    refine ⟨w, parts.ns, parts.name, parts.version, parts.subpath, parts.quals, hd, ?_⟩
+    rw [hty]
+    exact h
+  · rintro ⟨w, ns, name, ver, sub, q, hd, hb⟩
+    rw [hd.eq, parse_of_pieces U w hd.ok ns name ver sub q hd.hsub hd.hq hd.hns hd.hname hd.hver]
+    exact hb
+
+/-- the same for the typed parser: additionally the type as written must be a known name -/
+theorem accepted_iff_spelling_typed (s : Str) (p : GPurl PkgType) :
+    parseP U s = .ok p ↔
+      ∃ (w : Pieces) (t : PkgType) (ns name ver sub : Str) (q : Quals), Decomposed U s w ns name ver sub q ∧
+        PkgType.ofStr U w.ty = some t ∧
+        buildP U ⟨t, { ns := ns, name := name, version := ver, quals := q, subpath := sub }⟩ = .ok p := by
+  constructor
+  · intro h
+    unfold parseP parseWith at h
+    split at h
+    · simp at h
+    rename_i ty rest parts0 hpre
+    simp only [pkgShape] at h
+    split at h
+    · simp [fail] at h
+    rename_i t st' ht
+    have ht' : PkgType.ofStr U ty = some t := by
+      cases ho : PkgType.ofStr U ty with
+      | none => rw [ho] at ht; simp at ht
+      | some t' => rw [ho] at ht; simp at ht; rw [ht]
+    split at h
+    · simp [fail] at h
+    rename_i parts hpost
+    obtain ⟨w, hty, _, _, hd⟩ := pieces_of_parse U hpre hpost
+    refine ⟨w, t, parts.ns, parts.name, parts.version, parts.subpath, parts.quals, hd, ?_, h⟩
+    rw [hty]; exact ht'
+  · rintro ⟨w, t, ns, name, ver, sub, q, hd, ht, hb⟩
+    rw [hd.eq, parseP_of_pieces U w hd.ok t ht ns name ver sub q hd.hsub hd.hq hd.hns hd.hname hd.hver]
+    exact hb
+
+/-- hence: a string that is not an assembled legal spelling is refused, whatever else it is -/
+theorem not_a_spelling_refused (s : Str) (h : ¬ ∃ w : Pieces, w.Ok ∧ s = w.assemble) :
+    ∃ f, parseS U s = .error f := by
+  cases hp : parseS U s with
+  | error f => exact ⟨f, rfl⟩
+  | ok p =>
+    obtain ⟨w, _, _, _, _, _, hd, _⟩ := (accepted_iff_spelling U s p).1 hp
+    exact absurd ⟨w, hd.ok, hd.eq⟩ h
 
 /-! ### non-vacuity -/
 /-- `pkg://%41/n@1` : a percent-encoded type in an otherwise valid spelling -/
